@@ -66,7 +66,17 @@ func unboundLoopClause(ct *Contract, msg string, fi *FuncInfo) (string, bool) {
 	if i := strings.Index(msg, "unknown identifier "); i >= 0 {
 		name := strings.Fields(msg[i+len("unknown identifier "):])[0]
 		if strings.HasPrefix(name, "$") {
-			return "", false
+			// $i3, $seq1, ...: the index / sequence of another, enclosing loop that no longer exists (the loops were
+			// restructured) - the clause no longer binds and is dropped like one that names a removed local
+			numbered := false
+			for _, pre := range []string{"$i", "$seq", "$v"} {
+				if rest := strings.TrimPrefix(name, pre); rest != name && rest != "" && strings.Trim(rest, "0123456789") == "" {
+					numbered = true
+				}
+			}
+			if !numbered {
+				return "", false
+			}
 		}
 	}
 	has := func(cs []Clause) (string, bool) {
